@@ -157,7 +157,23 @@ def main(tier, seed):
         j = target + 1
         while j < len(lines) and lines[j].startswith(' *   '):
             del lines[j]
+        variant = rng.random()
+        expect_line = target
+        first_line_anns = None
+        if variant < 0.2:
+            # the defect stands on a continuation line after a well-formed first line: nothing of that line may be applied
+            lines[target] = ' * @%s: (nullable)' % b['params'][k]['name']
+            lines.insert(target + 1, ' *   (skip) %s' % defect)
+            expect_line = target + 1
+            first_line_anns = ['nullable']
+        elif variant < 0.35:
+            # comment text in front of the end token and code behind it: diagnosed on the last line
+            kind = 'end-token'
+            lines[target] = ' * @%s: fine' % b['params'][k]['name']
+            lines[-1] = rng.choice([' * trailing text */', ' */ int x;', ' * more */ call();'])
+            expect_line = len(lines) - 1
         text = '\n'.join(lines)
+        target_line_text = lines[expect_line]
         start = rng.choice([1, 17, 4000])
         logger, out = fresh_logger(message)
         ck.count_case(dict(defect=kind, line=target), nontrivial=True, kind='defect:' + kind)
@@ -167,6 +183,7 @@ def main(tier, seed):
             ck.failing_input('parse_comment_block raises %s on a malformed annotation' % type(e).__name__, dict(text=text), detail=repr(e))
             continue
         diags = parse_log(out.getvalue())
+        target = expect_line
         case = dict(text=text, first_line=start, defect=kind, defect_on_line=start + target)
         if not diags:
             ck.failing_input('a malformed annotation is not diagnosed', case)
@@ -174,14 +191,23 @@ def main(tier, seed):
             if os.path.basename(d['file']) != 'foo.c':
                 ck.failing_input('a diagnostic names another file', case, detail=d)
             if d['line'] != start + target:
-                ck.failing_input('a diagnostic names line %d, the offending text stands on line %d' % (d['line'], start + target), case, detail=d)
+                # validate() diagnostics carry the position of the part's first line (known finding C11-K1): only that exact shape is matched
+                k1 = first_line_anns is not None and d['quoted'] is None and d['line'] == start + target - 1 \
+                    and kind in ('unknown-annotation', 'bad-option-count', 'bad-option', 'list-got-pairs')
+                ck.failing_input('a diagnostic names line %d, the offending text stands on line %d' % (d['line'], start + target), case, detail=d,
+                                 fid='C11-K1-validate-names-first-line-of-part' if k1 else None)
             if d['quoted'] is not None:
-                if d['quoted'] != lines[target]:
+                if d['quoted'] != target_line_text:
                     ck.failing_input('the quoted line of a diagnostic is not the source line', case, detail=d)
                 elif not (0 <= d['caret'] <= len(d['quoted'])):
                     ck.failing_input('the caret of a diagnostic lies outside the quoted line', case, detail=d)
         # a malformed annotation is ignored rather than half-applied
-        if blk is not None and kind in ('unbalanced', 'unbalanced-close', 'empty-parens', 'double-open', 'nested', 'stray-close'):
+        if blk is not None and first_line_anns is not None and kind in ('unbalanced', 'empty-parens', 'double-open', 'nested', 'stray-close'):
+            p = blk.params.get(b['params'][k]['name'])
+            if p is not None and list(p.annotations.keys()) != first_line_anns:
+                ck.failing_input('a continuation line with malformed annotations is partly applied', case,
+                                 detail=dict(annotations=c10.norm_anns(p.annotations), expected=first_line_anns))
+        elif blk is not None and kind in ('unbalanced', 'unbalanced-close', 'empty-parens', 'double-open', 'nested', 'stray-close'):
             p = blk.params.get(b['params'][k]['name'])
             if p is not None and kind != 'unbalanced-close' and len(p.annotations) > 0:
                 ck.failing_input('annotations with unbalanced or empty parentheses are partly applied', case,
